@@ -94,6 +94,8 @@ def build_oracle(m, V, cfg):
     nseg = m.reserv.numseg.value
     if nseg > 1:
         o['__segments__'] = nseg
+        for k in range(1, nseg + 1):
+            put(f'Segment {k}   Geothermal gradient', lambda k=k: V(rs + 'gradient')[k - 1])
     put('Total Avoided Carbon Emissions', lambda: V(ec + 'CarbonThatWouldHaveBeenProducedTotal'))
     put('Fixed Charge Rate (FCR)', lambda: V(ec + 'FCR') * 100.0)
     put('Interest Rate', lambda: V(ec + 'interest_rate'))
@@ -481,7 +483,7 @@ def run_unit(unit):
         for f in figs:
             term, spec = c.tokens[f['token']]
             label = f['label']
-            if label.startswith('Segment '):
+            if label.startswith('Segment ') and label not in oracle:
                 continue
             ent = oracle.get(label)
             if ent is None:
